@@ -257,6 +257,16 @@ func runCase(c Case) (res result) {
 			if _, err := os.Lstat(full); err == nil {
 				continue
 			}
+			dotgit := false
+			for _, comp := range strings.Split(f, "/") {
+				if strings.EqualFold(comp, ".git") { // Git refuses to index ".git" in any letter case
+					dotgit = true
+				}
+			}
+			if dotgit {
+				res.counts["indexed_files_not_creatable"]++
+				continue
+			}
 			if os.MkdirAll(filepath.Dir(full), 0o755) != nil || os.WriteFile(full, []byte(content), 0o644) != nil {
 				res.counts["indexed_files_not_creatable"]++ // e.g. a path that is a directory of another one
 				if f == c.Victim {
@@ -878,6 +888,7 @@ func main() {
 
 	trig := map[string]int{}
 	lens := map[string]int{}
+	pres := map[string]int{}
 	var mustChecks int64
 	for i, res := range results {
 		if infras[i] != "" {
@@ -895,6 +906,16 @@ func main() {
 		}
 		mustChecks += res.counts["must_paths_checked_tracked"]
 		lens[fmt.Sprintf("len=%d", len(c.Steps))]++
+		pres[c.PreKind]++
+		if c.PreRoot != nil && !strings.HasSuffix(*c.PreRoot, "\n") {
+			run.Count("cases_toplevel_gitattributes_last_line_unterminated", 1)
+			if !strings.Contains(*c.PreRoot, "\n") {
+				run.Count("cases_toplevel_gitattributes_single_unterminated_line", 1)
+			}
+		}
+		if c.PreDir != nil && !strings.HasSuffix(*c.PreDir, "\n") {
+			run.Count("cases_subdir_gitattributes_last_line_unterminated", 1)
+		}
 		tagged := false
 		for _, a := range c.Args {
 			if a.Hazard != "" {
@@ -928,6 +949,7 @@ func main() {
 	}
 	run.Set("cases_per_trigger_coordinate", trig)
 	run.Set("cases_per_sequence_length", lens)
+	run.Set("cases_per_preexisting_variant", pres)
 	sbx.RemoveBase()
 	if mustChecks == 0 {
 		run.Infra("monitor observed no tracked path at all")
